@@ -397,7 +397,7 @@ OPERATORS = [
     "member-interface", "member-scalar", "member-input",
     "dir-unknown", "dir-misplaced", "dir-repeated", "dir-unknown-arg", "dir-missing-arg", "dir-wrong-literal",
     "recursive-direct", "recursive-indirect", "recursive-via-type", "recursive-via-enumvalue", "recursive-via-inputfield", "recursive-via-nested-input",
-    "builtin-scalar-ext-fault",
+    "builtin-scalar-ext-fault", "dup-typedef-other-kind", "dup-directive", "redefine-builtin-directive",
 ]
 DIR_SITES = ["SCHEMA", "SCALAR", "OBJECT", "FIELD_DEFINITION", "IFIELD_DEFINITION", "ARGUMENT_DEFINITION", "DIRARG_DEFINITION", "INTERFACE", "UNION",
              "ENUM", "ENUM_VALUE", "INPUT_OBJECT", "INPUT_FIELD_DEFINITION"]
@@ -576,6 +576,21 @@ def inject(model, operator, site):
     elif op == "dup-inputfield":
         c = nth(by("input"))
         c["inputFields"].append(copy.deepcopy(c["inputFields"][0]))
+    elif op == "dup-typedef-other-kind":
+        # the same NAME once more, as another kind of type (unreferenced: the only fault is the name)
+        c = nth([d for d in defs if d["k"] not in ("schema", "directive")])
+        if c["k"] == "scalar":
+            defs.append(SG.tdef("enum", c["name"], values=[SG.evalue("ONLY")]))
+        else:
+            defs.append(SG.tdef("scalar", c["name"]))
+    elif op == "dup-directive":
+        c = nth(by("directive"))
+        if not c:
+            return None
+        defs.append(copy.deepcopy(c))
+    elif op == "redefine-builtin-directive":
+        name, locs = [("skip", ["FIELD"]), ("include", ["FIELD"]), ("deprecated", ["FIELD_DEFINITION"]), ("specifiedBy", ["SCALAR"])][site % 4]
+        defs.append(SG.dirdef(name, locs))
     elif op == "dup-typedef":
         c = nth([d for d in defs if d["k"] not in ("schema", "directive")])
         defs.append(copy.deepcopy(c))
